@@ -367,7 +367,7 @@ func minInt(a, b int) int {
 }
 
 func genC09(c *h.Ctx) {
-	r := c.Rng
+	r := c.Rng.Fork() // h.NewRng(seed) streams for nearby seeds are shifted copies of one another; forking decorrelates them
 	// (1) boundary cross on fixed strings, member call on a primitive string
 	for _, s := range c09Fixed {
 		hx := hex.EncodeToString([]byte(s))
